@@ -177,3 +177,8 @@ Definition spec_diff (c : pcase) : list string :=
   ++ (if multiset_eqb mapping_eqb (o_vt o) (o_vt s) then [] else ["mappings_vtproto"])
   ++ (if multiset_eqb mapping_eqb (o_grpc o) (o_grpc s) then [] else ["mappings_grpc"])
   ++ (if req_eqb (o_req o) (o_req s) then [] else ["plugins"]).
+
+(* do the hypotheses of the theorems of Props/C20.v hold of this case?  (reported as coverage) *)
+Definition hyps_hold (c : pcase) : bool :=
+  wf_nodeb (c_root (pc_cfg c)) && dirs_okb (pc_cfg c).
+Definition exact_and_hyps (c : pcase) : bool := exact_argv c && hyps_hold c.
